@@ -6,7 +6,7 @@ rows of a dispatch table (dict literal of tuples of function references) and `ge
 """
 import ast
 
-from sa.consteval import UNKNOWN, FnVal, Folder, Lam, ModAttr
+from sa.consteval import NT, NTClass, UNKNOWN, FnVal, Folder, Lam, ModAttr
 from sa.model import AnalysisError, ClassInfo, Finding, FunctionInfo, enclosing_fn, loc, src
 from sa.rules.cli import cli_model
 
@@ -198,14 +198,52 @@ def rule_call_direct(prog, rep, tier):
 
 
 # ---------------------------------------------------------------------------- dispatch tables
-def _table_rows(prog, value):
-    """rows of a dispatch table expression: {const: (refs...)} or OrderedDict/dict(((const, (refs...)), ...))"""
+class Row(object):
+    """one row of a dispatch table: positional values and, for namedtuple rows, the field names"""
+    def __init__(self, vals, fields=None):
+        self.vals, self.fields = list(vals), (list(fields) if fields else None)
+
+    def __len__(self):
+        return len(self.vals)
+
+    def get(self, key):
+        if isinstance(key, int):
+            return self.vals[key] if -len(self.vals) <= key < len(self.vals) else None
+        if self.fields and key in self.fields:
+            return self.vals[self.fields.index(key)]
+        return None
+
+
+def _row_of(prog, folder, v):
+    """a row expression: a tuple of references, or <namedtuple class>(refs..., field=ref...)"""
+    if isinstance(v, ast.Tuple):
+        return [e for e in v.elts], None
+    if isinstance(v, ast.Call) and isinstance(v.func, ast.Name):
+        cls = folder.fold(v.func, {}, v)
+        if isinstance(cls, NTClass):
+            flds = list(cls.fields)
+            elts = [None] * len(flds)
+            for i, a in enumerate(v.args):
+                if i < len(flds):
+                    elts[i] = a
+            for k in v.keywords:
+                if k.arg in flds:
+                    elts[flds.index(k.arg)] = k.value
+            if all(e is not None for e in elts):
+                return elts, flds
+    return None, None
+
+
+def _table_rows(prog, value, folder=None):
+    """rows of a dispatch table expression: {const: row} or OrderedDict/dict(((const, row), ...)); a row is a tuple of
+    references or a namedtuple of references"""
+    folder = folder or Folder(prog)
     pairs = None
-    if isinstance(value, ast.Dict) and value.keys and all(isinstance(v, ast.Tuple) for v in value.values):
+    if isinstance(value, ast.Dict) and value.keys:
         pairs = list(zip(value.keys, value.values))
     elif isinstance(value, ast.Call) and (value.func.id if isinstance(value.func, ast.Name) else "") in ("OrderedDict", "dict") and len(value.args) == 1 \
             and isinstance(value.args[0], (ast.Tuple, ast.List)) and value.args[0].elts \
-            and all(isinstance(e, ast.Tuple) and len(e.elts) == 2 and isinstance(e.elts[1], ast.Tuple) for e in value.args[0].elts):
+            and all(isinstance(e, ast.Tuple) and len(e.elts) == 2 for e in value.args[0].elts):
         pairs = [(e.elts[0], e.elts[1]) for e in value.args[0].elts]
     if not pairs:
         return None
@@ -213,12 +251,15 @@ def _table_rows(prog, value):
     for k, v in pairs:
         if not isinstance(k, ast.Constant):
             return None
+        elts, flds = _row_of(prog, folder, v)
+        if elts is None:
+            return None
         vals = []
-        for e in v.elts:
+        for e in elts:
             tg = prog.resolve_expr_fn(e, e)
             vals.append(tg[0] if tg else None)
-        rows.append((k.value, vals))
-    return rows if any(isinstance(x, FunctionInfo) for _, vals in rows for x in vals) else None
+        rows.append((k.value, Row(vals, flds)))
+    return rows if any(isinstance(x, FunctionInfo) for _, r in rows for x in r.vals) else None
 
 
 def _tables(prog, fi):
@@ -257,12 +298,26 @@ def rule_call_dispatch(prog, rep, tier, anchor="conformance.ground_truth"):
         """env: name -> row value for names bound in fn."""
         ordinal = {}
         calls = sorted((c for c in ast.walk(fn.node) if isinstance(c, ast.Call)), key=lambda c: (c.lineno, c.col_offset))
-        fenv = {k: _py_value(v) for k, v in env.items() if not k.startswith("**") and _py_value(v) is not UNKNOWN}
+        fenv = {k: _py_value(v) for k, v in env.items() if not k.startswith("**") and not isinstance(v, Row) and _py_value(v) is not UNKNOWN}
+        for k, v in env.items():
+            if isinstance(v, Row) and v.fields:
+                fenv[k] = NT(v.fields, [_py_value(x) for x in v.vals])
+
+        def val_of(e):
+            """(label, value) of an expression that denotes a row value: a row variable's field/element or an unpacked name"""
+            if isinstance(e, ast.Name) and e.id in env:
+                return e.id, env[e.id]
+            if isinstance(e, ast.Attribute) and isinstance(e.value, ast.Name) and isinstance(env.get(e.value.id), Row):
+                return e.attr, env[e.value.id].get(e.attr)
+            if isinstance(e, ast.Subscript) and isinstance(e.value, ast.Name) and isinstance(env.get(e.value.id), Row) and isinstance(e.slice, ast.Constant) \
+                    and isinstance(e.slice.value, int):
+                return "%s[%d]" % (e.value.id, e.slice.value), env[e.value.id].get(e.slice.value)
+            return None, None
+
         for c in calls:
-            if isinstance(c.func, ast.Name) and c.func.id in env:
-                var = c.func.id
+            var, callee = val_of(c.func)
+            if var is not None and not isinstance(callee, Row):
                 ordinal[var] = ordinal.get(var, 0) + 1
-                callee = env[var]
                 if not isinstance(callee, (FunctionInfo, ClassInfo)):
                     continue
                 sg = sig_of(callee)
@@ -272,6 +327,9 @@ def rule_call_dispatch(prog, rep, tier, anchor="conformance.ground_truth"):
                 # effective value of each option flag at this site (explicit constant, else the callee's default)
                 fenv2 = dict(fenv)
                 fenv2.update({k_: FnVal(v_, {}) for k_, v_ in env.items() if isinstance(v_, FunctionInfo)})
+                for k_, v_ in env.items():
+                    if isinstance(v_, Row) and v_.fields:
+                        fenv2[k_] = NT(v_.fields, [FnVal(x, {}) if isinstance(x, FunctionInfo) else _py_value(x) for x in v_.vals])
                 defaults = {}
                 a_ = callee.node.args if isinstance(callee, FunctionInfo) else None
                 if a_ is not None:
@@ -283,7 +341,7 @@ def rule_call_dispatch(prog, rep, tier, anchor="conformance.ground_truth"):
                         continue
                     kwv = next((k.value for k in c.keywords if k.arg == opt), None)
                     val = folder.fold(kwv, fenv2, kwv) if kwv is not None else defaults[opt]
-                    effective.setdefault((fn.qualname, var, sg.name, rowkey, opt), {})[ordinal[var]] = (val, c)
+                    effective.setdefault((var, sg.name, rowkey, opt), {})[(fn.qualname, ordinal[var])] = (val, c)
                 rs = sg.must_fail(n_pos, kws, star, sstar)
                 if rs:
                     key = (fn.qualname, var, ordinal[var], sg.name)
@@ -305,14 +363,16 @@ def rule_call_dispatch(prog, rep, tier, anchor="conformance.ground_truth"):
                         names = [x.arg for x in a.posonlyargs + a.args + a.kwonlyargs]
                         sub = {}
                         for i, arg in enumerate(c.args):
-                            if isinstance(arg, ast.Name) and arg.id in env and i < len(names):
-                                sub[names[i]] = env[arg.id]
+                            lab, v_ = val_of(arg)
+                            if lab is not None and v_ is not None and i < len(names):
+                                sub[names[i]] = v_
                         for k in c.keywords:
-                            if k.arg and isinstance(k.value, ast.Name) and k.value.id in env:
+                            lab, v_ = val_of(k.value) if k.arg else (None, None)
+                            if k.arg and lab is not None and v_ is not None:
                                 if k.arg in names:
-                                    sub[k.arg] = env[k.value.id]
+                                    sub[k.arg] = v_
                                 elif a.kwarg is not None:
-                                    sub.setdefault("**" + a.kwarg.arg, {})[k.arg] = env[k.value.id]
+                                    sub.setdefault("**" + a.kwarg.arg, {})[k.arg] = v_
                             elif k.arg is None and isinstance(k.value, ast.Name) and ("**" + k.value.id) in env:
                                 # f(**kwargs) forwarding a captured **kwargs
                                 for kk, vv in env["**" + k.value.id].items():
@@ -326,42 +386,54 @@ def rule_call_dispatch(prog, rep, tier, anchor="conformance.ground_truth"):
         n_unpack = 0
         for f in [x for x in fi.module.functions.values()]:
             bind_names = None
+            row_vars = set()
             for n in ast.walk(f.node):
                 if enclosing_fn(n) is not f:
                     continue
                 tgt = None
                 if isinstance(n, ast.Assign) and isinstance(n.value, ast.Subscript) and isinstance(n.value.value, ast.Name) and n.value.value.id == tname:
                     tgt = n.targets[0]
-                elif isinstance(n, ast.For) and isinstance(n.iter, ast.Call) and isinstance(n.iter.func, ast.Attribute) and n.iter.func.attr == "items" \
+                elif isinstance(n, (ast.For, ast.comprehension)) and isinstance(n.iter, ast.Call) and isinstance(n.iter.func, ast.Attribute) and n.iter.func.attr == "items" \
                         and isinstance(n.iter.func.value, ast.Name) and n.iter.func.value.id == tname and isinstance(n.target, ast.Tuple) and len(n.target.elts) == 2:
                     tgt = n.target.elts[1]
+                elif isinstance(n, (ast.For, ast.comprehension)) and isinstance(n.iter, ast.Call) and isinstance(n.iter.func, ast.Attribute) and n.iter.func.attr == "values" \
+                        and isinstance(n.iter.func.value, ast.Name) and n.iter.func.value.id == tname:
+                    tgt = n.target
                 if isinstance(tgt, ast.Tuple) and all(isinstance(e, ast.Name) for e in tgt.elts):
                     names_ = [e.id for e in tgt.elts]
                     bind_names = names_ if bind_names is None else [a if a != "_" else b for a, b in zip(bind_names, names_)]
-            if bind_names is None:
+                elif isinstance(tgt, ast.Name):
+                    row_vars.add(tgt.id)
+            if bind_names is None and not row_vars:
                 continue
             n_unpack += 1
-            for key, vals in rows:
-                if len(vals) != len(bind_names):
+            for key, row in rows:
+                env0 = {rv: row for rv in row_vars}
+                if bind_names is not None and len(row) == len(bind_names):
+                    env0.update({nm: v for nm, v in zip(bind_names, row.vals) if nm != "_"})
+                elif bind_names is not None and not row_vars:
                     continue
-                analyse(f, {nm: v for nm, v in zip(bind_names, vals) if nm != "_"}, key, 0, [])
+                analyse(f, env0, key, 0, [])
         if n_unpack == 0:
             raise AnalysisError("CALL: table %s in %s is never unpacked into variables" % (tname, anchor))
     # CALL-SIB: the sibling sites that emit the same row (create / append / replace branch) use the same option values
     seen_sib = set()
-    for (fq, var, callee_name, rowkey, opt), sites in sorted(effective.items(), key=lambda kv: str(kv[0])):
+    for (var, callee_name, rowkey, opt), sites in sorted(effective.items(), key=lambda kv: str(kv[0])):
         vals = {repr(v) for v, _ in sites.values() if v is not UNKNOWN}
         if len(sites) < 2:
             continue
+        fns_ = sorted({f_ for f_, _ in sites})
+        fq = fns_[0] if len(fns_) == 1 else prog.owner_name(prog.fn(fns_[0])) if prog.has_fn(fns_[0]) else fns_[0]
         if len(vals) > 1:
-            k_ = (fq, var, callee_name, opt)
+            k_ = (var, callee_name, opt)
             if k_ in seen_sib:
                 continue
             seen_sib.add(k_)
             c0 = sorted(sites.items())[0][1][1]
             rep.violation(Finding("CALL-SIB", fq, "option-disagreement:%s:%s" % (callee_name, opt),
-                                  "for table row %r the %d call sites of %s in %s pass different values of %s (%s): a target created by one branch is rewritten by the "
-                                  "other on the next run" % (rowkey, len(sites), callee_name, fq, opt, ", ".join("#%d=%s" % (o, v[0]) for o, v in sorted(sites.items()))), loc(prog, c0)))
+                                  "for table row %r the %d call sites of %s (in %s) pass different values of %s (%s): a target created by one branch is rewritten by the "
+                                  "other on the next run" % (rowkey, len(sites), callee_name, ", ".join(fns_), opt,
+                                                             ", ".join("%s#%d=%s" % (o[0].split(".")[-1], o[1], v[0]) for o, v in sorted(sites.items()))), loc(prog, c0)))
         else:
             rep.holds("CALL-SIB", "%s: %s sites of %s agree on %s [row %r]" % (fq, len(sites), callee_name, opt, rowkey), "", "value %s" % (vals.pop() if vals else "unknown"))
     if n_sites[0] < 3:
